@@ -267,6 +267,8 @@ class G:
 
     def cond(self, stack, depth):
         r = self.r
+        if self.bombs and not self.has_bomb and stack and r.random() < 0.05:
+            return self.bomb()
         if stack and stack[-1] == "I" and r.random() < 0.5:
             return r.choice(["?(%s ?lt)" % self.small_int(), "(== %s)" % self.small_int(),
                              "?(%s ?gt)" % self.small_int(), "!(%s ?eq)" % self.small_int(),
@@ -656,6 +658,17 @@ def gen_program(rng, in_types, dwarf=False, bombs=True, ticks=True):
 
 # Hand-written programs that put every stateful construct under a multi-stack
 # stream; the generator mixes these in so that reach does not depend on luck.
+SEED_PROGRAMS_ASET = [
+    "0 0x10 aset", "0 0x10 aset 5 sub", "0 0x10 aset 0x100 0x110 aset add length", "0 0x10 aset 0x100 0x110 aset add range",
+    "0 0x10 aset 0x100 0x110 aset add elem", "0 0x10 aset 0x8 0x18 aset overlap", "0 0x10 aset 0x8 0x18 aset sub",
+    "0 0x10 aset 0x8 0x18 aset add", "0 0x20 aset (5, 7, 9) sub", "0 0x20 aset 5 sub 9 sub 0x10 sub length",
+    "0 0x20 aset 0x4 0x8 aset sub 0x10 0x14 aset sub", "0 10 aset 10 ?contains", "0 10 aset 9 ?contains 1",
+    "0 0x10 aset 0x8 0x18 aset ?overlaps 1", "0 0 aset ?empty 1", "0 0x10 aset low", "0 0x10 aset high",
+    "0xfffffffffffffff0 0xffffffffffffffff aset length", "0xfffffffffffffff0 0xffffffffffffffff aset 0xfffffffffffffff8 sub",
+    "0 0x10 aset dup add", "0 0x10 aset dup sub", "0 0x10 aset dup 3 sub swap 3 sub add", "(0, 4, 8) dup 4 add aset [|A| A elem]",
+    "0 0x40 aset (1, 2) (|A N| A N sub A)", "[0 0x10 aset relem]", "0 0x10 aset \"%s\"", "0 0x1000 aset 0x10 0x20 aset sub range",
+]
+
 SEED_PROGRAMS_CORE = [
     "?match", "!match", "(|A B| A B ?match)", "(|A B| A (=~ B))", "?find", "?starts",
     "\"abc\" 1 2 3 4 drop drop drop drop 5 add", "\"abc\" 1 2 3 4 add add add add", "1 \"a\" [] 2 \"b\" 3 drop drop drop length",
@@ -706,11 +719,11 @@ SEED_PROGRAMS_CORE = [
     "(1, 2) ?(3, 4) !(?(1 2 ?eq))",
     "(\"a\", \"b\") (=~ \"a\") \"%s!\"",
     "[1, 2, 3] (|L| L elem (|E| [L elem (> E)]))",
-    "(1, 2, 3) ?(pos 1 !eq || drop drop drop drop drop drop)",
-    "[(1, 2, 3) ?(pos 2 !eq || drop drop drop drop drop drop)]",
-    "(1, 2) \"%( ?(pos 1 !eq || drop drop drop drop drop) %)\"",
-    "(1, 2, 3) {?(pos 1 !eq || drop drop drop drop drop)} apply",
-    "(1, 2, 3) if ?(pos 2 !eq || drop drop drop drop) then 1 else 2",
+    "(1, 2, 3) ?(2 !eq || drop drop drop drop drop drop)",
+    "[(1, 2, 3) ?(3 !eq || drop drop drop drop drop drop)]",
+    "(1, 2) \"%( ?(2 !eq || drop drop drop drop drop) %)\"",
+    "(1, 2, 3) {?(2 !eq || drop drop drop drop drop)} apply",
+    "(1, 2, 3) if ?(2 !eq || drop drop drop drop) then 1 else 2", "(1, 2, 3) if (3 !eq || drop drop drop drop) then 1 else 2", "[5, 6, 7] elem if ?(pos 1 !eq || drop drop drop drop) then 1 else 2",
     "0 (1 add ?(6 ?lt) ?(dup 4 !eq || drop drop drop drop))*",
 ]
 
@@ -730,6 +743,14 @@ DW_DIE_WORDS = ["name", "high", "low", "address", "label", "offset", "child", "p
 def gen_dw_simple(rng):
     """Short programs made of plain DWARF words: cheap, and between them they
     touch every producer and every libdw accessor."""
+    if rng.random() < 0.1:
+        return rng.choice(["symbol label", "symbol binding", "symbol name", "symbol visibility", "symbol size", "symbol address",
+                           "symbol ?(label STT_FUNC ?eq) name", "[symbol label] length", "symbol \"%s\"", "symbol (label == STT_OBJECT) name",
+                           "symbol binding \"%s\"", "symbol label \"%s\"", "symbol !0 ?(binding STB_GLOBAL ?eq) name",
+                           "name dwopen unit offset", "name dwopen entry offset", "(|D| D name dwopen (== D))", "(|D| D name dwopen (!= D) 1)",
+                           "name dwopen name", "dup name dwopen swap drop entry ?root offset",
+                           "entry ?AT_low_pc address", "entry address 1 add", "entry address length", "entry ?(address) address range",
+                           "entry address elem", "entry @AT_location address", "entry address dup sub", "[entry address] length"])
     head = rng.choice(["entry", "entry", "entry", "unit root", "unit entry", "raw entry", "entry ?root",
                        "entry child", "unit root child", "unit ?1 root", "unit !0 entry", "unit ?1 entry",
                        "unit", "unit ?1", "entry ?3", "entry !0 !1", "raw", "raw unit", "cooked unit", "unit relem" if False else "unit"])
@@ -809,6 +830,7 @@ REJECT_SEEDS = [
     '\x01', '\x7f', '\xff', '`', '``', '`1', '$', '~a', '1 ^ 2',
     '123foo', '0x', '0xg', '0b2', '08', '0o8', '18446744073709551616', '-18446744073709551616', '0x10000000000000000',
     '?18446744073709551616', '!99999999999999999999', '?1x', '!0b2',
+    '1 2 "%( 0b2 %)"', '1 "%( 08 %)"', '[1 "%( 0x %)"', '(1, 2) "a%( 0o9 %)b"', '1 2 3 "%( "%( 0b2 %)" %)"',
     'let "a%sb" := 1;', 'let "%( 1 %)" := 1;', 'let "a%sb" := (1, 2) [3, 4];', 'let "x" "y" := 1;', 'let r"a%db" := ;',
     'let "foo" := 1; foo', 'let "" := 1;',
     '1 )', '(', '[', '{', '?(', '!{', '1 ]', '1 }', 'if 1 then 2', 'if 1 else 2', 'then', 'let A 1;', 'let := 1;', 'let A := 1',
